@@ -320,6 +320,17 @@ theorem C17_chain_loop_conservative (tbl : UnitTable) (items : List Item) (env :
       | .error e => .error e) :=
   foldlM_stepC_none tbl items env h
 
+/-- `$unit {source?*}` (`UnitList.extend`): a custom unit of the remote source whose name exists
+    already in the importing environment is refused — it is never skipped, so a host can never adopt
+    a unit text that means something else locally. -/
+theorem C17_unit_import_clash (tbl : UnitTable) (env : Env) (source : Str)
+    (s : Str × List (Str × Val × Option Str)) (u : Str × Val × Option Str)
+    (hs : env.srcUnits.find? (fun x => x.1 = source) = some s) (hu : u ∈ s.2)
+    (hc : env.units.any (fun x => decide (x.1 = u.1)) = true) :
+    ∃ e, step tbl env (.unitimp source none) = .error e := by
+  obtain ⟨e, he⟩ := extendUnits_clash env.units s.2 u hu hc
+  exact ⟨e, by simp [step, importUnits, hs, he]⟩
+
 /-! ## slices -/
 
 /-- Whenever numpy/Python slicing `v[s1, s2, …]` is defined — index, range (also `n:n`, the
@@ -521,7 +532,7 @@ example : Inv unitTable Env.empty ∧
   · refine ⟨⟨by simp, by simp⟩, rfl, ?_, trivial⟩
     intro v u _ hk
     cases hk
-  · refine ⟨⟨[⟨[['a']], .float, [], some ['m'], some (.num 3), false, none, none, [], [], none⟩], [], false, []⟩, ?_⟩
+  · refine ⟨⟨[⟨[['a']], .float, [], some ['m'], some (.num 3), false, none, none, [], [], none⟩], [], false, [], []⟩, ?_⟩
     simp [sStep, absEnv, Env.empty, sEval, pickUnit, unitOk, isNumKw, lookupUnit, unitTable, conforms, castScalar]
 
 end SciVerif.C17
